@@ -15,7 +15,15 @@ P = {'id': 'C02',
               'legacy_stream_roundtrip',
               'far1short_old_reader_refuted',
               'rans_compressor_refuted',
-              'normalize_not_idempotent'],
+              'normalize_not_idempotent',
+              'rans_compressor_roundtrip',
+              'rans_frame_roundtrip',
+              'rans_counts_u16_refuted',
+              'dict_compressor_roundtrip',
+              'huffman_compressor_roundtrip',
+              'huffman_tree_serialize_roundtrip',
+              'huffman_size_u16_refuted'],
+ 'coq_deps': ['C01'],
  'trusted': ['modelled (M+S): src/compression/dict_zip/compression_types.rs (CompressionType::supports, Match::validate, BitWriter, BitReader, '
              'encode/decode_variable_length, encode_match, decode_match, encode_matches, decode_matches) bit-exact; src/compression/mod.rs '
              'HybridCompressor::{compress,decompress} over arbitrary component codecs, the HuffmanCompressor header layout over an arbitrary tree '
